@@ -27,6 +27,9 @@ def _src_digest():
   return h.hexdigest()[:16]
 
 
+_STATE = {}
+
+
 def load_known_findings():
   path = os.path.join(boot.VERIF_DIR, "known_findings.json")
   if not os.path.exists(path):
@@ -46,7 +49,7 @@ def write_replay(profile, res, events, note=""):
       "seed": res["seed"], "run_index": res["run_index"], "cfg": res["cfg"],
       "src_digest": _src_digest(), "hashseed": os.environ.get("PYTHONHASHSEED"),
       "events": events, "observed": v, "note": note,
-    }, f, indent=1, sort_keys=True, default=repr)
+    }, f, indent=1, default=repr)      # key order inside events is kept: it is part of the input
   return path
 
 
@@ -149,6 +152,28 @@ def main(argv=None):
       known_lines.append(line)
       print(line)
 
+  # 1b. Regression corpus: minimised histories of defects that were fixed (known_findings.json,
+  # "fixed") and of seeded changes that were caught. Each must stay clean; one that fails again is
+  # an ordinary violation.
+  exit_code = 0
+  regress_n = 0
+  rdir = os.path.join(boot.VERIF_DIR, "regress")
+  for name in sorted(os.listdir(rdir)) if os.path.isdir(rdir) else []:
+    if not (name.startswith(prop + "-") and name.endswith(".json")):
+      continue
+    path = os.path.join(rdir, name)
+    _rf, r = replay_file(path, quiet=True)
+    regress_n += 1
+    _STATE["regress_n"] = regress_n
+    if r.harness_error:
+      print("HARNESS-ERROR regression history %s\n%s" % (path, r.harness_error))
+      exit_code = max(exit_code, 2)
+    elif r.violation and r.violation["prop"] == prop:
+      print("VIOLATION property=%s replay=%s" % (prop, path))
+      print("  oracle=%s (regression history) detail=%s" % (
+        r.violation["oracle"], r.violation["detail"][:400]))
+      exit_code = max(exit_code, 1)
+
   # 2. Seeded search.
   n_runs = args.runs or (profile.quick_runs if tier == "quick" else profile.thorough_runs)
   budget = args.budget or (profile.quick_budget if tier == "quick" else profile.thorough_budget)
@@ -160,8 +185,7 @@ def main(argv=None):
       json.dump({str(d["run_index"]): d.get("digest") for d in results}, f, sort_keys=True)
   harness = [d for d in results if d.get("harness_error")]
   bad = [d for d in results if d.get("violation")]
-  exit_code = 0
-  violations_reported = 0
+  violations_reported = 1 if exit_code == 1 else 0
   known_hits = 0
   reported = []
   seen_sigs = set()
@@ -286,6 +310,7 @@ def write_evidence(profile, prop, tier, verif_seed, results, planned, wall, viol
       "components": profile.components_text(),
       "known_findings_reported": known_lines,
       "known_finding_hits_in_search": known_hits,
+      "regression_histories_replayed": _STATE.get("regress_n", 0),
       "violating_runs": raw_bad,
       "violations_reported": reported,
       "src_digest": _src_digest(),
